@@ -380,6 +380,28 @@ static const char* numeric_range_convertible_types()
     return "cihTF";
 }
 
+//! Returns whether @a lhs + @a delta leaves the value range of its type.
+//! The scanner can not reconstruct ranges that wrap around.
+static int range_step_overflows(const rtosc_arg_val_t* lhs,
+                                const rtosc_arg_val_t* delta)
+{
+    switch(lhs->type)
+    {
+        case 'c':
+        case 'i':
+        {
+            int64_t sum = (int64_t)lhs->val.i + delta->val.i;
+            return sum < INT32_MIN || sum > INT32_MAX;
+        }
+        case 'h':
+            return (delta->val.h > 0)
+                   ? lhs->val.h > INT64_MAX - delta->val.h
+                   : lhs->val.h < INT64_MIN - delta->val.h;
+        default:
+            return 0;
+    }
+}
+
 //! tries to convert all args starting at @a arg into
 //! an arg val range - if possible
 //! @param arg_out array, output which must have the size of arg or more;
@@ -412,6 +434,8 @@ static int32_t rtosc_convert_to_range(const rtosc_arg_val_t* const arg,
     else if(strchr(numeric_range_convertible_types(), arg->type)) {
         has_delta = 1;
         rtosc_arg_val_sub(arg+1, arg, &delta);
+        if(range_step_overflows(arg, &delta))
+            return 0;
     }
     else return 0;
 
@@ -423,7 +447,11 @@ static int32_t rtosc_convert_to_range(const rtosc_arg_val_t* const arg,
             next = skipped + incsize(arg+skipped);
 
             if(has_delta)
+            {
+                if(range_step_overflows(arg+skipped, &delta))
+                    break;
                 rtosc_arg_val_add(arg+skipped, &delta, &added);
+            }
 
             if(next >= size || !rtosc_arg_vals_eq_single(has_delta ? &added
                                                                    : arg,
